@@ -141,6 +141,8 @@ class Ctx:
         self.hot = hot or {'ints': [], 'floats': []}
         self.cases = []             # (fn, argstr, impl_out, qrule, klass)
         self.pred_fail = []         # dicts
+        self.known_matcher = None   # callable(failure) -> finding id | None (set by the runner)
+        self.known_counts = {}
         self.pred_count = 0
         self.pred_classes = {}
         self.case_classes = {}
@@ -173,8 +175,17 @@ class Ctx:
         k = klass or name
         self.pred_classes[k] = self.pred_classes.get(k, 0) + 1
         if not ok:
+            f = {'predicate': name, 'input': inp, 'detail': detail}
+            # failures inside a listed known finding are counted, and only a few are kept, so that a noisy
+            # finding can never crowd a new failure out of the retained list
+            kid = self.known_matcher(f) if self.known_matcher else None
+            if kid is not None:
+                self.known_counts[kid] = self.known_counts.get(kid, 0) + 1
+                if self.known_counts[kid] > 3:
+                    return
+                f['known'] = kid
             if len(self.pred_fail) < 2000:
-                self.pred_fail.append({'predicate': name, 'input': inp, 'detail': detail})
+                self.pred_fail.append(f)
             else:
                 self.pred_fail_overflow = getattr(self, 'pred_fail_overflow', 0) + 1
 
